@@ -27,16 +27,62 @@ func c14defs(n int) []schema.SignalEventDefinition {
 	return defs
 }
 
-func c14new(kind string, par bool, n int) satisfier {
+// c14msgDefs: MESSAGE definitions m0..m(n-1); the odd ones also name an operation. A message event matches a definition
+// iff the message is the same AND both name the same operation or neither names one.
+func c14msgDefs(n int) []schema.MessageEventDefinition {
+	defs := make([]schema.MessageEventDefinition, n)
+	for i := 0; i < n; i++ {
+		d := schema.DefaultMessageEventDefinition()
+		name := schema.QName(fmt.Sprintf("m%d", i))
+		d.SetMessageRef(&name)
+		if i%2 == 1 {
+			op := schema.QName(fmt.Sprintf("op%d", i))
+			d.SetOperationRef(&op)
+		}
+		defs[i] = d
+	}
+	return defs
+}
+
+// c14msgEvent: the event matching definition i, or (i < 0) a NEAR MISS of definition k: the same message with an
+// operation where the definition names none, without one / with another one where it names one
+func c14msgEvent(i, k int) event.IEvent {
+	if i >= 0 {
+		if i%2 == 1 {
+			op := fmt.Sprintf("op%d", i)
+			return event.NewMessageEvent(fmt.Sprintf("m%d", i), &op)
+		}
+		return event.NewMessageEvent(fmt.Sprintf("m%d", i), nil)
+	}
+	if k%2 == 0 {
+		op := "opX"
+		return event.NewMessageEvent(fmt.Sprintf("m%d", k), &op)
+	}
+	if k%4 == 1 {
+		return event.NewMessageEvent(fmt.Sprintf("m%d", k), nil)
+	}
+	op := "opX"
+	return event.NewMessageEvent(fmt.Sprintf("m%d", k), &op)
+}
+
+func c14new(kind string, par bool, n int, msg bool) satisfier {
 	if kind == "catch" {
 		ce := schema.DefaultCatchEvent()
 		p := par
 		ce.SetParallelMultiple(&p)
-		ce.SetSignalEventDefinitions(c14defs(n))
+		if msg {
+			ce.SetMessageEventDefinitions(c14msgDefs(n))
+		} else {
+			ce.SetSignalEventDefinitions(c14defs(n))
+		}
 		return logic.NewCatchEventSatisfier(&ce, event.WrappingDefinitionInstanceBuilder)
 	}
 	te := schema.DefaultThrowEvent()
-	te.SetSignalEventDefinitions(c14defs(n))
+	if msg {
+		te.SetMessageEventDefinitions(c14msgDefs(n))
+	} else {
+		te.SetSignalEventDefinitions(c14defs(n))
+	}
 	return logic.NewThrowEventSatisfier(&te, event.WrappingDefinitionInstanceBuilder)
 }
 
@@ -45,7 +91,13 @@ var c14seq int
 // one case: a fresh satisfier and a history; idx -1 = an event matching no definition
 func c14case(out *rec.Out, kind string, par bool, n int, hist []int, stats map[string]int) {
 	out.Begin("c14", kind, rec.B(par), n)
-	s := c14new(kind, par, n)
+	// a third of the cases use MESSAGE definitions (half of them naming an operation); their non-matching events are near
+	// misses: the right message with the wrong / a missing / a superfluous operation
+	msg := c14seq%3 == 2
+	if msg {
+		stats["cases_with_message_definitions"]++
+	}
+	s := c14new(kind, par, n, msg)
 	// half of the cases hand in ONE event object per signal, again and again (a sender that keeps its event value): two
 	// occurrences are two occurrences, whether or not they are the same Go value
 	c14seq++
@@ -54,18 +106,24 @@ func c14case(out *rec.Out, kind string, par bool, n int, hist []int, stats map[s
 	if reuse {
 		stats["cases_reusing_one_event_object_per_signal"]++
 	}
-	for _, i := range hist {
+	for pos, i := range hist {
 		name := "nomatch"
 		if i >= 0 {
 			name = fmt.Sprintf("sig%d", i)
 		}
-		ev := event.NewSignalEvent(name)
-		if reuse {
-			if o, ok := objs[name]; ok {
-				ev = o
-			} else {
-				objs[name] = ev
+		var ev event.IEvent
+		if msg {
+			ev = c14msgEvent(i, pos%n)
+		} else {
+			sev := event.NewSignalEvent(name)
+			if reuse {
+				if o, ok := objs[name]; ok {
+					sev = o
+				} else {
+					objs[name] = sev
+				}
 			}
+			ev = sev
 		}
 		m, c := s.Satisfy(ev)
 		out.Line("ev %d %d %d", i, rec.B(m), c)
